@@ -14,9 +14,10 @@ structure Inv (c : Conn α) : Prop where
   att_inj : ∀ s₁ ∈ c.streams, ∀ s₂ ∈ c.streams, ∀ ex, s₁.attached = some ex → s₂.attached = some ex → s₁.id = s₂.id
   opn_att : ∀ s ∈ c.streams, s.opn = true → s.attached.isSome
   ex_ok   : ∀ e ∈ c.exs, ExOK e
+  pend_lt : ∀ pw ∈ c.pendW, pw.sid < c.nextSid
 
 theorem inv_init (cfg : Cfg) : Inv (init cfg : Conn α) := by
-  refine ⟨by simp [init], ?_, ?_, ?_, ?_, ?_, ?_⟩
+  refine ⟨by simp [init], ?_, ?_, ?_, ?_, ?_, ?_, by intro pw h; simp [init] at h⟩
   · intro s hs; simp [init] at hs; subst hs; simp [init]
   · intro sid h
     show sid < 1
@@ -101,8 +102,9 @@ theorem streamsRel_release (l : List (Stream α)) (ex : ExId) : StreamsRel l (re
 
 /-- the workhorse: `Inv` survives in-place updates of streams and exchanges -/
 theorem inv_congr {c c' : Conn α} (h : Inv c) (hs : StreamsRel c.streams c'.streams) (he : ExRel c.exs c'.exs)
-    (hst : ∀ sid, (c'.store sid).isSome → sid < c'.nextSid) (hn : c.nextSid ≤ c'.nextSid) : Inv c' := by
-  refine ⟨h.nodup.sublist hs.1, ?_, hst, ?_, ?_, ?_, ?_⟩
+    (hst : ∀ sid, (c'.store sid).isSome → sid < c'.nextSid) (hn : c.nextSid ≤ c'.nextSid)
+    (hpw : c'.pendW = c.pendW := by rfl) : Inv c' := by
+  refine ⟨h.nodup.sublist hs.1, ?_, hst, ?_, ?_, ?_, ?_, fun pw hp => Nat.lt_of_lt_of_le (h.pend_lt pw (by rw [← hpw]; exact hp)) hn⟩
   · intro s' hs'
     obtain ⟨s, hsl, hid, _, _⟩ := hs.2 s' hs'
     rw [hid]; exact Nat.lt_of_lt_of_le (h.sid_lt s hsl) hn
@@ -145,7 +147,7 @@ theorem inv_congr {c c' : Conn α} (h : Inv c) (hs : StreamsRel c.streams c'.str
 
 /-- a new (not yet attached) exchange is added at the end of the table -/
 theorem inv_append_ex {c : Conn α} (h : Inv c) (e : Exch α) (hok : ExOK e) : Inv { c with exs := c.exs ++ [e] } := by
-  refine ⟨h.nodup, h.sid_lt, h.store_lt, ?_, h.att_inj, h.opn_att, ?_⟩
+  refine ⟨h.nodup, h.sid_lt, h.store_lt, ?_, h.att_inj, h.opn_att, ?_, h.pend_lt⟩
   · intro s hs ex hat
     obtain ⟨e₀, hex, hst⟩ := h.att s hs ex hat
     have hlt : ex < c.exs.length := by
@@ -213,10 +215,14 @@ theorem deliver_stream (exs : List (Exch α)) (s : Stream α) (it : Item α) (ev
   unfold eraseResp; split <;> rfl
 @[simp] theorem eraseResp_hist (c : Conn α) (msg : Msg α) : (eraseResp c msg).hist = c.hist := by
   unfold eraseResp; split <;> rfl
+@[simp] theorem eraseResp_pendW (c : Conn α) (msg : Msg α) : (eraseResp c msg).pendW = c.pendW := by
+  unfold eraseResp; split <;> rfl
+@[simp] theorem eraseResp_purged (c : Conn α) (msg : Msg α) : (eraseResp c msg).purged = c.purged := by
+  unfold eraseResp; split <;> rfl
 
 theorem inv_eraseResp {c : Conn α} (h : Inv c) (msg : Msg α) : Inv (eraseResp c msg) :=
   inv_congr (c' := eraseResp c msg) h (by simp; exact StreamsRel.refl _) (by simp; exact ExRel.refl _)
-    (by simp; exact h.store_lt) (by simp)
+    (by simp; exact h.store_lt) (by simp) (by simp)
 
 /-- the routing target is a registered stream -/
 theorem route_mem {c : Conn α} {msg : Msg α} {ctx : Option ReqId} {s : Stream α} (h : route c msg ctx = some s) :
@@ -314,7 +320,7 @@ theorem inv_register {c : Conn α} (h : Inv c) (calls : List ReqId) (listen : Bo
     intro s hs hat
     have := att_lt h hs hat
     omega
-  refine ⟨?_, ?_, postStore_lt h listen ver, ?_, ?_, ?_, ?_⟩
+  refine ⟨?_, ?_, postStore_lt h listen ver, ?_, ?_, ?_, ?_, fun pw hp => Nat.lt_succ_of_lt (h.pend_lt pw hp)⟩
   · simp only [register, List.map_append, List.map_cons, List.map_nil]
     rw [List.nodup_append]
     refine ⟨h.nodup, by simp, ?_⟩
@@ -451,7 +457,7 @@ theorem inv_attach {c c0 : Conn α} (h : Inv c) (h0 : Inv c0) (hs : c.streams = 
       rw [hs] at hx
       have := att_lt h0 hx hxa
       omega
-    refine ⟨?_, ?_, h.store_lt, ?_, ?_, ?_, h.ex_ok⟩
+    refine ⟨?_, ?_, h.store_lt, ?_, ?_, ?_, h.ex_ok, h.pend_lt⟩
     · simp only; rw [setStream_ids]; exact h.nodup
     · intro x hx
       simp only at hx
@@ -515,6 +521,55 @@ theorem inv_get {c : Conn α} (h : Inv c) (hdr : Hdr) (ver : Ver) (budget : Opti
         · exact inv_statusEx h _ _
         · exact inv_getGo h _ _ _ _ _ hnatt
 
+/-! ### WROUTE / WDELIVER -/
+
+theorem inv_pendW {c : Conn α} (h : Inv c) (l : List (PendW α)) (hl : ∀ pw ∈ l, pw.sid < c.nextSid) :
+    Inv ({ c with pendW := l } : Conn α) :=
+  ⟨h.nodup, h.sid_lt, h.store_lt, h.att, h.att_inj, h.opn_att, h.ex_ok, hl⟩
+
+theorem mem_eraseIdx {β : Type} {l : List β} {i : Nat} {x : β} (h : x ∈ l.eraseIdx i) : x ∈ l :=
+  List.mem_of_mem_eraseIdx h
+
+theorem inv_wroute {c : Conn α} (h : Inv c) (msg : Msg α) (ctx : Option ReqId) (ctxNew : Bool) :
+    Inv (wrouteR c msg ctx ctxNew).1 := by
+  unfold wrouteR
+  split
+  · exact h
+  · split
+    · exact inv_eraseResp h msg
+    · rename_i s hs
+      split
+      · exact inv_eraseResp h msg
+      · refine inv_pendW (inv_eraseResp h msg) _ ?_
+        intro pw hp
+        simp only [eraseResp_nextSid]
+        rcases List.mem_append.mp hp with hp | hp
+        · exact h.pend_lt pw hp
+        · simp at hp; subst hp; exact h.sid_lt s (route_mem hs)
+
+theorem inv_orphan {c : Conn α} (h : Inv c) (pw : PendW α) (hlt : pw.sid < c.nextSid) : Inv (orphanWrite c pw).1 := by
+  refine inv_congr (c' := (orphanWrite c pw).1) h (StreamsRel.refl _) (ExRel.refl _) ?_ (Nat.le_refl _) rfl
+  intro sid hsome
+  simp only [orphanWrite] at hsome
+  split at hsome
+  · by_cases hk : sid = pw.sid
+    · rw [hk]; exact hlt
+    · rw [appendLog_other _ _ _ _ hk] at hsome; exact h.store_lt sid hsome
+  · exact h.store_lt sid hsome
+
+theorem inv_wdeliver {c : Conn α} (h : Inv c) (i : Nat) : Inv (wdeliverR c i).1 := by
+  unfold wdeliverR
+  split
+  · exact h
+  · rename_i pw hpw
+    have hmem : pw ∈ c.pendW := List.mem_of_getElem? hpw
+    have h1 : Inv ({ c with pendW := c.pendW.eraseIdx i } : Conn α) :=
+      inv_pendW h _ (fun x hx => h.pend_lt x (mem_eraseIdx hx))
+    split
+    · rename_i s hs
+      exact inv_writeTo h1 (findStream_some hs).1 _ _ _
+    · exact inv_orphan h1 pw (h.pend_lt pw hmem)
+
 theorem inv_step {c : Conn α} (h : Inv c) (l : Label α) : Inv (step c l) := by
   unfold step stepR
   cases l with
@@ -524,7 +579,10 @@ theorem inv_step {c : Conn α} (h : Inv c) (l : Label α) : Inv (step c l) := by
   | wfail ex => exact inv_wfail h _
   | get hdr ver budget => exact inv_get h _ _ _
   | sclose req retry => exact inv_sclose h _ _
-  | «end» => exact ⟨h.nodup, h.sid_lt, h.store_lt, h.att, h.att_inj, h.opn_att, h.ex_ok⟩
+  | «end» => exact ⟨h.nodup, h.sid_lt, h.store_lt, h.att, h.att_inj, h.opn_att, h.ex_ok, h.pend_lt⟩
+  | evict sid n => exact ⟨h.nodup, h.sid_lt, h.store_lt, h.att, h.att_inj, h.opn_att, h.ex_ok, h.pend_lt⟩
+  | wroute msg ctx ctxNew => exact inv_wroute h _ _ _
+  | wdeliver i => exact inv_wdeliver h i
 
 theorem inv_run (cfg : Cfg) (ls : List (Label α)) : Inv (run (init cfg) ls) := by
   suffices ∀ c : Conn α, Inv c → Inv (run c ls) from this _ (inv_init cfg)
